@@ -98,13 +98,19 @@ class C08(F.Check):
         # floating reps: formula equivalence (DESIGN.md C08): op(q1, q2) == raw op on (x (*) k1, y (*) k2), k exact integers
         self.finst = []
         fpairs = [("double", "double")] if self.tier == "quick" else [("double", "double"), ("float", "float"), ("float", "double")]
-        for ui, (u1, u2, k1, k2, lab) in enumerate(upairs):
+        # long double with scale factors that need more than 53 bits (exact in the 64-bit significand, not in double): the factor must be
+        # applied in the rep itself
+        big = [("Yotta<Meters>", "Meters", 10 ** 24, 1, "Ym|m"), ("decltype(Meters{} * mag<16677181699666569ull>())", "Meters", 3 ** 34, 1, "3^34 m|m"),
+               ("Meters", "decltype(Meters{} * mag<9007199254740993ull>())", 1, 2 ** 53 + 1, "m|(2^53+1) m")]
+        if self.tier == "quick":
+            big = big[:2]
+        todo = [(ui, p_, fpairs) for ui, p_ in enumerate(upairs) if not (self.tier == "quick" and ui % 2)]
+        todo += [(1000 + bi, p_, [("long double", "long double")]) for bi, p_ in enumerate(big)]
+        for ui, (u1, u2, k1, k2, lab), fps in todo:
             k1, k2 = int(k1), int(k2)
-            if self.tier == "quick" and ui % 2:
-                continue
-            for r1, r2 in fpairs:
+            for r1, r2 in fps:
                 cr = common_type(r1, r2)
-                tag = "f%d_%s_%s" % (ui, r1, r2)
+                tag = "f%d_%s_%s" % (ui, r1.replace(" ", ""), r2.replace(" ", ""))
                 key = {"U1|U2": lab, "k1": k1, "k2": k2, "R1": r1, "R2": r2, "common_rep": cr}
                 cu = "CommonUnitT<%s, %s>" % (u1, u2)
                 a = "make_quantity<%s>(x)" % u1
